@@ -28,6 +28,9 @@ pub enum Role {
         #[serde(default)]
         think_s: u64,
     },
+    /// status exchange whose handshake frame declares its real length plus `high` (2^21, 2^28: a four- or
+    /// five-byte length prefix whose low bits look like an ordinary small frame)
+    HighBitLen { high: i32 },
     /// logs in; after Login Acknowledged it sends an ignorable frame just below the maximum (the server's
     /// read buffer grows) and then one of `len` > max bytes that arrives in one piece
     LateOversize { len: i32 },
@@ -86,6 +89,7 @@ fn generate(rng: &mut Rng) -> C14Sc {
         let peer = format!("192.0.2.{}:{}", 10 + i, 40000 + i);
         let effective = if proxy.is_some() { format!("198.51.100.{}:{}", 20 + i, 50000 + i) } else { peer.clone() };
         let role = match rng.below(if use_start { 9 } else { 10 }) {
+            0 if rng.chance(1, 4) => Role::HighBitLen { high: *rng.pick(&[1i32 << 21, 1 << 28, 1 << 30]) },
             0 | 1 => Role::FrameLen { len: if rng.chance(1, 2) { max_frame } else { max_frame + 1 } },
             2 | 3 => Role::Cookie {
                 age_s: match rng.below(4) {
@@ -113,6 +117,13 @@ fn generate(rng: &mut Rng) -> C14Sc {
                     Some(h) => spec.host = "h".repeat(h),
                     None => spec.host = "h".into(),
                 }
+            }
+            Role::HighBitLen { high } => {
+                spec = ClientSpec::base(rng, 1);
+                let real = crate::codec::handshake_body(spec.protocol, &spec.host, spec.port, 1).len() as i32 + 1;
+                spec.mutations.push(crate::client::Mutation { frame: 0, op: crate::client::MutOp::OuterLen { v: *high + real } });
+                // the length prefix arrives first, the rest a second later: the refusal must not wait for it
+                spec.cuts.push(Cut { at: crate::codec::varint(*high + real).len() as u64, gate: Gate::Delay { ns: secs(1) }, spurious: 0 });
             }
             Role::LateOversize { len } => {
                 spec = ClientSpec::base(rng, 2);
@@ -254,6 +265,19 @@ pub fn check(sc: &C14Sc, out: &NetOutcome, rep: &mut RunReport) {
                     rep.violate("frame_over_configured_max_is_refused", format!("handshake frame of {len} bytes was served although the configured maximum is {max}"));
                 }
             }
+            Role::HighBitLen { high } => {
+                if c.view.first("StatusResponse").is_some() || c.rx_total > 0 {
+                    rep.violate("frame_over_configured_max_is_refused", format!("a handshake frame that declares {high} bytes more than it has (configured maximum {max}) was served: packets {:?}", c.view.kinds()));
+                }
+                // refused on its declared length, i.e. as soon as the prefix is there (not by misreading what follows)
+                let spec = &sc.net.clients[i].spec;
+                let real = crate::codec::handshake_body(spec.protocol, &spec.host, spec.port, 1).len() as i32 + 1;
+                let pl = crate::codec::varint(*high + real).len() as u64;
+                let t_prefix = PipeState::avail_at(&c.avail, plen + pl).unwrap_or(u64::MAX);
+                if cfg.timeout_ns >= secs(5) && spec.cuts.iter().any(|k| k.at == plen + pl && matches!(k.gate, Gate::Delay { ns } if ns >= ms(500))) && c.closed_ns.is_none_or(|t| t > t_prefix) {
+                    rep.violate("frame_over_configured_max_is_refused", format!("the length prefix declaring {} bytes (configured maximum {max}) was there at {t_prefix} ns, the server closed at {:?}", *high + real, c.closed_ns));
+                }
+            }
             Role::LateOversize { len } => {
                 // the second extra is the over-long one; by the time it is there in one piece the connection is refused
                 let Some(f) = c.view.sent.iter().filter(|s| s.kind == "Extra").nth(1) else { continue };
@@ -336,7 +360,14 @@ impl Check for C14 {
                 Role::LateOversize { len } => c.spec.intent == 2 && c.spec.mute_after.is_none() && c.spec.close_after.is_none() && c.spec.cuts.iter().all(|k| k.at < plen_of(c)) && c.spec.extras.len() == 2 && c.spec.extras.iter().all(|x| x.after_ack && x.id == 0x02) && c.spec.extras[0].at_ns < c.spec.extras[1].at_ns && c.spec.info_delay_ns >= ms(500) && c.spec.extras[1].at_ns < ms(400) && matches!(&c.spec.extras[1].body, crate::client::Body::Raw { bytes } if bytes.len() as i32 == *len - 1),
                 _ => true,
             };
-            if !ok || c.spec.script.is_some() || !c.spec.mutations.is_empty() || c.spec.preamble.is_some() != sc.net.cfg.proxy.is_some() {
+            let mutations_ok = match r {
+                Role::HighBitLen { high } => {
+                    let real = crate::codec::handshake_body(c.spec.protocol, &c.spec.host, c.spec.port, 1).len() as i32 + 1;
+                    c.spec.intent == 1 && *high >= (1 << 21) && c.spec.mutations == vec![crate::client::Mutation { frame: 0, op: crate::client::MutOp::OuterLen { v: *high + real } }] && c.spec.cuts.iter().all(|k| k.at < plen_of(c) || k.at == plen_of(c) + crate::codec::varint(*high + real).len() as u64)
+                }
+                _ => c.spec.mutations.is_empty(),
+            };
+            if !ok || c.spec.script.is_some() || !mutations_ok || c.spec.preamble.is_some() != sc.net.cfg.proxy.is_some() {
                 return RunReport::default();
             }
             // the header a client announces must be the one the oracle assumes (index-derived source)
@@ -373,6 +404,7 @@ impl Check for C14 {
                 Role::FrameLen { .. } => "client_frame_at_limit",
                 Role::Cookie { .. } => "client_cookie_at_expiry",
                 Role::LateOversize { .. } => "client_overlong_frame_after_login",
+                Role::HighBitLen { .. } => "client_length_prefix_with_high_bit",
                 Role::Silent => "client_silent",
                 Role::Trickle { .. } => "client_trickle",
                 Role::StopsAfter { .. } => "client_stops_mid_protocol",
